@@ -7,7 +7,7 @@
    one property:  C01 C02 C03 C04 C12 C13, or ALL.
    Deviations (named in DESIGN 3.4) are constants, FALSE in every registered check. *)
 EXTENDS VWorkerOps, Json, IOUtils, TLCExt
-CONSTANTS Prop, DevAstralNul
+CONSTANTS Prop, DevAstralNul, DevStuck
 
 Rec == ndJsonDeserialize(IOEnv.TRACE)
 
@@ -22,7 +22,7 @@ On(p) == Prop = "ALL" \/ Prop = p
 (* an asserted clause; a failing one is named on stdout (single path, so printed once) *)
 A(p, n, x) == IF ~On(p) THEN TRUE ELSE IF x THEN TRUE ELSE Print(<<"FAILED-CLAUSE", p, n, l>>, FALSE)
 
-MaxW == 16
+MaxW == 64
 W0 == [sent |-> <<>>, tk |-> FALSE, top |-> <<>>]
 C0 == [on |-> FALSE, lc |-> <<>>, rc |-> <<>>]
 
@@ -115,7 +115,15 @@ OptErr == /\ Is("isp_result")
           /\ A("C12", "ignore-space-accepted-iff-SPACE", E.ok = (E.space >= 0))
           /\ UNCHANGED <<dict, opts, ws, cnt, memo>>
 
-Next == Session \/ Reset \/ Tok \/ Read \/ CInit \/ CUpd \/ Probs \/ Respace \/ OptErr
+(* named deviation Stuck (F12): tokenize panics exactly when the scan reaches a position
+   without candidates; consumed only when the deviation is switched on (classification) *)
+PanicStuck == /\ Is("panic") /\ DevStuck
+              /\ E.op.op = "tok"
+              /\ LET s == ws[E.op.w].sent IN
+                 Len(s) > 0 /\ ScanStuck(dict, opts, s, STab(dict, s, DevAstralNul))
+              /\ UNCHANGED <<dict, opts, ws, cnt, memo>>
+
+Next == PanicStuck \/ Session \/ Reset \/ Tok \/ Read \/ CInit \/ CUpd \/ Probs \/ Respace \/ OptErr
 Spec == Init /\ [][Next]_vars
 
 Accepted ==
